@@ -303,10 +303,10 @@ func (b *xbuilder) expr(v ssa.Value, d int, onpath map[ssa.Value]bool) *X {
 		return &X{Op: "extract", Name: fmt.Sprint(v.Index), Args: []*X{t}, V: v}
 	case *ssa.FieldAddr:
 		st := deref(v.X.Type()).Underlying().(*types.Struct)
-		return &X{Op: "field", Name: st.Field(v.Field).Name(), Args: []*X{sub(v.X)}, V: v, Addr: true}
+		return &X{Op: "field", Name: canonField(st.Field(v.Field)), Args: []*X{sub(v.X)}, V: v, Addr: true}
 	case *ssa.Field:
 		st := v.X.Type().Underlying().(*types.Struct)
-		return &X{Op: "field", Name: st.Field(v.Field).Name(), Args: []*X{sub(v.X)}, V: v}
+		return &X{Op: "field", Name: canonField(st.Field(v.Field)), Args: []*X{sub(v.X)}, V: v}
 	case *ssa.IndexAddr:
 		return &X{Op: "index", Args: []*X{sub(v.X), sub(v.Index)}, V: v, Addr: true}
 	case *ssa.Index:
@@ -453,7 +453,7 @@ func (b *xbuilder) complit(al *ssa.Alloc, sub func(ssa.Value) *X) *X {
 		if fr := fa.Referrers(); fr != nil {
 			for _, s := range *fr {
 				if st2, ok := s.(*ssa.Store); ok && st2.Addr == fa {
-					x.Args = append(x.Args, &X{Op: "fieldinit", Name: st.Field(fa.Field).Name(), Args: []*X{sub(st2.Val)}, V: fa})
+					x.Args = append(x.Args, &X{Op: "fieldinit", Name: canonField(st.Field(fa.Field)), Args: []*X{sub(st2.Val)}, V: fa})
 				}
 			}
 		}
@@ -814,7 +814,7 @@ func (c *Ctx) CellFields(x *X) map[string]*X {
 								if fr := fa.Referrers(); fr != nil {
 									for _, u := range *fr {
 										if s, ok := u.(*ssa.Store); ok && s.Addr == fa {
-											out[st.Field(fa.Field).Name()] = c.E(s.Val)
+											out[canonField(st.Field(fa.Field))] = c.E(s.Val)
 										}
 									}
 								}
@@ -841,7 +841,7 @@ func (c *Ctx) CellFields(x *X) map[string]*X {
 				if fr := fa.Referrers(); fr != nil {
 					for _, u := range *fr {
 						if s, ok := u.(*ssa.Store); ok && s.Addr == fa {
-							out[st.Field(fa.Field).Name()] = c.E(s.Val)
+							out[canonField(st.Field(fa.Field))] = c.E(s.Val)
 						}
 					}
 				}
